@@ -113,6 +113,9 @@ def check_deltas(case):
     x0 = x.copy()
     in_place = bool(case.get("in_place", False))
 
+    if case.get("prior"):
+        other = Deltas(1, pad_mode="constant", constant_values=7)  # another object with its own pad keyword arguments
+        other.apply(np.arange(6.0).reshape(3, 2), axis=0)
     d = call(
         "Deltas(%d, target_axis=%d, concatenate=%s, context_window=%d, pad_mode=%r)" % (nd, target, cc, W, mode),
         Deltas, nd, target_axis=target, concatenate=cc, context_window=W, pad_mode=mode,
@@ -232,6 +235,10 @@ def check_stack(case):
             return call("Stack(%d, time_axis=%d)" % (n, ta), Stack, n, time_axis=ta)
         return call("Stack(%d, time_axis=%d, pad_mode=%r)" % (n, ta, mode), Stack, n, time_axis=ta, pad_mode=mode)
 
+    if case.get("prior"):
+        # another Stack object with its own numpy.pad keyword arguments exists in the process
+        other = Stack(2, time_axis=0, pad_mode="constant", constant_values=7)
+        other.apply(np.arange(6.0).reshape(3, 2))
     s = build()
     if case.get("prior"):
         pshape = [max(2, v) for v in case["prior"]][:3]
